@@ -2,12 +2,11 @@
 from .common import *
 ID = "C07"
 FUNCTIONS = [TF + "__len__", TF + "all", TF + "reindex", IX + "__len__", IX + "build"] + \
-    [IX + f for f in ("get_measurements", "get_tag_keys", "get_field_keys", "get_field_values", "get_timestamps")] + [TF + f for f in ("get_measurements", "get_tag_keys", "get_field_keys", "get_field_values", "get_timestamps")] + \
-    ["tinyflux.measurement.Measurement." + f for f in ("get_tag_keys", "get_field_keys", "get_field_values", "get_timestamps")]
+    [IX + f for f in ("get_measurements", "get_tag_keys", "get_tag_values", "get_field_keys", "get_field_values", "get_timestamps")] + [TF + f for f in ("get_measurements", "get_tag_keys", "get_tag_values", "get_field_keys", "get_field_values", "get_timestamps", "__iter__")] + \
+    ["tinyflux.measurement.Measurement." + f for f in ("get_tag_keys", "get_tag_values", "get_field_keys", "get_field_values", "get_timestamps", "__iter__", "__len__", "all")] + ["tinyflux.storages.CSVStorage.__len__", "tinyflux.storages.MemoryStorage.__len__"]
 ASSUMED = ["tinyflux.storages.Storage.__len__", "tinyflux.storages.Storage.read", "tinyflux.storages.Storage._deserialize_timestamp"]
 STANDIN = "standins/dbdiff.py"
 TRUSTED = TRUSTED_CORE + [STORAGE_ASSUMED,
-                          "NOT under contract (bounded stand-in only): get_tag_values (Index, TinyFlux, Measurement), TinyFlux.__iter__, Measurement.__len__/__iter__/all", TIME_ASSUMED,
+                          "generator functions (TinyFlux.__iter__, Measurement.__iter__) are read as the list of what they yield (A-gen: the consumer does not interleave other effects)", TIME_ASSUMED,
                           "three Skolem functions for existential clauses of the index invariant (every tag key has a value; every position occurs in the time order; conservative over the precondition)"]
 ASSUMPTIONS = [A_ALIAS]
-LEVEL = "other"
